@@ -23,7 +23,14 @@
                   ([kitty] of the main screen, [kitty_alt] of the alternate screen)
      protocol     the API protocol of a session (no Resume unless suspended, no rendering while suspended,
                   only Close after Close, SetAppID only if vx.CanSetAppID())
-     hits_suspended_shutdown   the guard of the recorded finding suspend-then-close. *)
+     hits_suspended_shutdown   the guard of the recorded finding suspend-then-close.
+     overlap_chunks   the overlapped shutdown (protocol state "closing in progress"): after a session that is
+                  running, a termination signal / panic makes the input goroutine run Close, which waits inside
+                  Suspend for the terminal's DA1 answer ([close_begin]: Close up to parser.WaitClose, with
+                  vx.closed set there iff the translator saw `vx.closed = true` BEFORE the call of Suspend,
+                  [close_flag_early]); meanwhile the application issues [during] Close calls of its own
+                  ([app_close]: returns at the guard, or never returns); the terminal answers ([close_end]);
+                  [after] more Close calls. *)
 From Vx Require Import base.Prelude model.ParserTypes model.Parser model.ModeTerm model.ModesTypes gen.GenModes
   model.Modes proofs.ModesProofs.
 
@@ -36,7 +43,10 @@ From Vx Require Import base.Prelude model.ParserTypes model.Parser model.ModeTer
    (1) the guard [hits_suspended_shutdown ops false false = false]: Suspend or a first Close while suspended
        never returns in the code as it is (C04_suspended_shutdown_refuted; recorded finding);
    (2) Kill and Panic are modelled as "Close runs on the input goroutine": signal delivery, the scheduler and
-       console.Reset are not modelled (exercised in child processes by the harness).
+       console.Reset are not modelled (exercised in child processes by the harness).  One interleaving IS
+       modelled: the application's own Close calls issued while that Close waits for the terminal
+       (C04_overlapping_close_harmless, C04_close_flag_late_refuted); an application that calls Suspend /
+       Resume / Render at that point is outside the API protocol (only Close after shutdown has begun).
    The theorem is over tokens; that the bytes of each token mean what [sem_tok] says for a standards-following
    terminal is proved per token for the closed vocabulary (the C04_bridge theorems) and checked for whole byte streams
    through the C02 parser model on every differential case. *)
@@ -93,6 +103,46 @@ Print Assumptions C04_failed_new_restores.
 Theorem C04_close_idempotent : forall (o : opts) (x : sst), x_closed x = true -> run_op o OpClose x = x.
 Proof. exact close_idempotent. Qed.
 Print Assumptions C04_close_idempotent.
+
+(* ... also when it OVERLAPS the shutdown the library started itself.  A termination signal (or a panic in the
+   input goroutine) runs Close on the input goroutine; Close posts QuitEvent and waits in Suspend for the
+   terminal; the application answers QuitEvent with its own Close calls while the first one is still waiting.
+   For every option / capability set, every admissible session that is running, any number of overlapping
+   and of later Close calls: every one of them returns (outcome 0) and writes nothing, the Close of the
+   input goroutine finishes, all chunks together are exactly what the plain signal shutdown writes
+   (session ++ [OpKill]), and the terminal is back where it was. *)
+Theorem C04_overlapping_close_harmless :
+  forall (o : opts) (det : flags) (d : data) (rows cols : Z) (ops : list op) (during after : nat)
+         (other kitty0 kalt0 appid0 : list Z) (honours : bool),
+  let fl := apply_quirks o (with_nomouse (o_nomouse o) det) in
+  let t0 := fresh_term other kitty0 kalt0 (d_ustyle d) appid0 honours in
+  (f_osc176 fl = true -> d_appid d = appid0) ->
+  protocol fl PRun ops = Some PRun ->
+  hits_suspended_shutdown ops false false = false ->
+  let before := session_chunks o det d rows cols ops in
+  exists b e,
+    overlap_chunks o det d rows cols ops during after
+      = Some (before ++ (0, b) :: idle_chunks during ++ (0, e) :: idle_chunks after)
+    /\ session_chunks o det d rows cols (ops ++ [OpKill]) = before ++ [(0, b ++ e)]
+    /\ sem_toks (flat_map snd before ++ b ++ e) t0 = t0.
+Proof. exact overlapping_close_harmless. Qed.
+Print Assumptions C04_overlapping_close_harmless.
+
+(* the split of Close at the parser wait is faithful: held there and released, the Close of the input
+   goroutine is the plain Close, whatever the flag did in between *)
+Theorem C04_close_split : forall (early : bool) (o : opts) (x : sst), x_closed x = false ->
+  close_end o (fst (close_begin_with early o x)) (snd (close_begin_with early o x)) = do_close o x.
+Proof. exact close_split. Qed.
+Print Assumptions C04_close_split.
+
+(* the position of `vx.closed = true` matters, and the model sees it: from every running state, a Close
+   that sets the flag only when it returns (not before Suspend) leaves the application's first overlapping
+   Close inside a second Suspend -- it never returns (outcome 2), whatever the session was *)
+Theorem C04_close_flag_late_refuted : forall (o : opts) (x : sst) (n a : nat),
+  s_hung (x_m x) = false -> x_suspended x = false -> x_closed x = false ->
+  exists b rest, overlap_tail_with false o x (S n) a = Some ((0, b) :: (2, []) :: rest).
+Proof. exact close_flag_late_refuted. Qed.
+Print Assumptions C04_close_flag_late_refuted.
 
 (* Resume re-establishes exactly what start-up established: after any admissible session ending in Resume
    every piece of terminal state Vaxis establishes (all modes incl. in-band resize, keypad, both kitty stacks
@@ -183,6 +233,21 @@ Example C04_example_suspend_then_close :
   hits_suspended_shutdown [OpSuspend; OpClose] false false = true
   /\ map fst (session_chunks ex_opts ex_det ex_data 1 2 [OpSuspend; OpClose]) = [0; 0; 2].
 Proof. vm_compute. split; reflexivity. Qed.
+
+(* the hypotheses of C04_overlapping_close_harmless are met by a session with a Suspend/Resume cycle; two
+   overlapping and one later Close: ten chunks, all returned; the Close of the input goroutine writes the DA1
+   query before the wait and the rest after it; with the flag set late the first overlapping Close hangs *)
+Definition ex_run_ops : list op := [ex_frame; OpSuspend; OpResume; OpRender].
+Example C04_example_overlap :
+  let fl := apply_quirks ex_opts (with_nomouse false ex_det) in
+  let x := ops_state ex_opts ex_run_ops (start_session ex_opts ex_det ex_data 1 2) in
+  protocol fl PRun ex_run_ops = Some PRun
+  /\ hits_suspended_shutdown ex_run_ops false false = false
+  /\ close_flag_early = true
+  /\ option_map (map fst) (overlap_chunks ex_opts ex_det ex_data 1 2 ex_run_ops 2 1) = Some [0; 0; 0; 0; 0; 0; 0; 0; 0; 0]
+  /\ option_map (fun l => map snd (firstn 1 l)) (overlap_tail ex_opts x 2 1) = Some [[OConst KPrimaryAttributes]]
+  /\ option_map (map fst) (overlap_tail_with false ex_opts x 2 1) = Some [0; 2; 0; 0; 0].
+Proof. vm_compute. repeat split; reflexivity. Qed.
 
 (* the hypothesis of C04_resume_reestablishes (a terminal that implements in-band resize reports it) is
    needed: a terminal that honours ?2048 silently keeps it after New (set blindly by the query phase) but
